@@ -263,6 +263,10 @@ def observers(ctx, repo):
         `during` = what the listener does to the Observable while it is being notified"""
 
         def __init__(self, key, log, during=None):
+            # "inline" listeners are callables nobody else keeps a reference to (a lambda written in the watch() call, a
+            # partial, a closure of a helper that returned): the observer list is their only owner
+            self.strongly_held = not str(key).startswith("inline")
+
             def fire(a, k):
                 log.append((key, tuple(a)))
                 if during is not None:
@@ -324,6 +328,9 @@ def observers(ctx, repo):
          "two observers are not each called exactly once, in registration order, with (sender, old, new)"),
         ("unwatch-one-keeps-other", [("watch", "a"), ("watch", "b"), ("unwatch", "a"), ("change", ev)], [("b", ev)],
          "removing one observer does not leave exactly the other one"),
+        ("a-callable-nobody-else-holds-is-still-notified", [("watch", "inline-1"), ("watch", "b"), ("watch", "inline-2"), ("change", ev), ("change", ev)],
+         [("inline-1", ev), ("b", ev), ("inline-2", ev), ("inline-1", ev), ("b", ev), ("inline-2", ev)],
+         "an observer given as an inline lambda / partial / closure (no other reference to it exists) is dropped: registered observers are held by the observable until they are removed"),
         ("unwatch-all-clears", [("watch", "a"), ("watch", "b"), ("unwatch_all", None), ("change", ev)], [],
          "unwatch_all leaves observers behind"),
         ("re-register-after-remove", [("watch", "a"), ("unwatch", "a"), ("watch", "a"), ("change", ev)], [("a", ev)],
